@@ -178,3 +178,40 @@ contract(P + '_parse_fields',
              'C11.fields.count_only_grows': 'LOGGER._warning_count >= old(LOGGER._warning_count)',
          },
          note='description: text after the last annotation group, stripped, without the separating colon')
+
+
+# ---- all comment blocks of a scan: a block that makes the parser fail is diagnosed and skipped, the others are kept --------
+contract(P + 'parse_comment_block',
+         params={'self': 'GtkDocCommentBlockParser', 'comment': 'str', 'filename': 'str?', 'lineno': 'int'},
+         returns='GtkDocCommentBlock?', fresh_result=True, trusted=True, modifies=['LOGGER._warning_count'],
+         raises={'Exception': 'maybe'},
+         exc_ensures={'count_only_grows_on_failure': ('Exception', 'LOGGER._warning_count >= old(LOGGER._warning_count)')},
+         ensures={'count_only_grows': 'LOGGER._warning_count >= old(LOGGER._warning_count)',
+                  'named': 'result is None or result.name is not None',
+                  'located': 'result is None or (result.position is not None and result.position.filename is not None)'},
+         note='the line state machine (500 lines, 15 regular expressions) is not under contract; here it may do anything, '
+              'including raising any Exception')
+contract('posixpath.dirname', params={'p': 'str'}, returns='str', pure_keys=['p'], trusted=True)
+from giscanner import annotationparser as _AP   # noqa
+from givc.model import schema as _schema2   # noqa
+_schema2(_AP.GtkDocCommentBlock, name='str?', position='Position?')
+
+COMMENTS = 'list[tuple[str,str?,int]]'
+contract(P + 'parse_comment_blocks', params={'self': 'GtkDocCommentBlockParser', 'comments': COMMENTS},
+         returns='dict[GtkDocCommentBlock]', props=('C11',), ghost={'G': 'str'},
+         modifies=['LOGGER._warning_count'],
+         loops={1: {'index': 'I1', 'modifies': ['comment_blocks{}', 'LOGGER._warning_count'],
+                    'generalize': ['G'],
+                    'var_types': {'comment': 'str', 'filename': 'str?', 'lineno': 'int', 'comment_block': 'GtkDocCommentBlock?',
+                                  'comment_blocks': 'dict[GtkDocCommentBlock]', 'path': 'str'},
+                    'invariant': ['LOGGER._warning_count >= old(LOGGER._warning_count)',
+                                  'implies(G in comment_blocks, comment_blocks[G].position is not None and '
+                                  'comment_blocks[G].position.filename is not None)']}},
+         ensures={
+             'C11.blocks.every_comment_is_parsed_in_order':
+                 "all_calls('parse_comment_block', 'arg_comment == comments[local_I1][0] and arg_filename == comments[local_I1][1] "
+                 "and arg_lineno == comments[local_I1][2]')",
+             'C11.blocks.count_only_grows': 'LOGGER._warning_count >= old(LOGGER._warning_count)',
+         },
+         note='no exception escapes (noexc.* obligations): an internal error of the block parser becomes one counted error at the '
+              'position of that block and the remaining comments are still parsed')
